@@ -82,9 +82,22 @@ func compareCase(c *Case, model []ModelObs, real []RenderObs, buildPanic string)
 	}
 	nf := noFormatAt(c)
 	ops := renderOps(c)
+	// a render aborted by the misuse error leaves THAT File's import table partly filled (the
+	// traversal stopped half way; the model does not follow it there): the history of that File
+	// ends, the other Files of the case go on (what a failed render leaves behind for them)
+	tainted := map[int]bool{}
+	fileOf := func(o Op) int {
+		if o.Kind == OpGFrag {
+			return o.F2
+		}
+		return o.F
+	}
 	for i := range ops {
 		if i >= len(model) {
 			break
+		}
+		if tainted[fileOf(ops[i])] {
+			continue
 		}
 		if len(model[i].Class) > 6 && model[i].Class[:6] == "error:" {
 			ds = append(ds, Disagreement{Case: c, OpIndex: i, Level: "machinery", Expected: "driver accepts the recipe", Got: model[i].Class})
@@ -114,7 +127,7 @@ func compareCase(c *Case, model []ModelObs, real []RenderObs, buildPanic string)
 			return ds
 		}
 		if class == "err:misuse" {
-			break
+			tainted[fileOf(ops[i])] = true
 		}
 	}
 	return ds
